@@ -75,7 +75,9 @@ def uGetAttr (v : View) (o : UV) (a : String) : M UV := match o with
   | .strs ns =>
     if a == "difference" then pure (.fn (.difference ns)) else if a == "intersection" then pure (.fn (.intersection ns))
     else throw "AttributeError"
-  | .frame f => if a == "empty" then pure (.bool f.rows.isEmpty) else throw "AttributeError"
+  | .frame f =>
+    if a == "empty" then pure (.bool f.rows.isEmpty) else if a == "columns" then pure (.strs f.names) else throw "AttributeError"
+  | .table t => if a == "columns" then pure (.strs t.names) else throw "AttributeError"
   | .dict ps => if a == "items" then pure (.fn (.items ps)) else throw "AttributeError"
   | _ => throw "AttributeError"
 
@@ -131,6 +133,20 @@ def uIter : UV → M (List UV)
   | .list vs => pure vs
   | _ => throw "TypeError"
 
+/-- a list display / comprehension whose elements are all column labels is a list of labels -/
+def strsOf : List UV → Option (List String)
+  | [] => some []
+  | .str s :: l => (strsOf l).map fun r => s :: r
+  | _ => Option.none
+
+def uNewList (vs : List UV) : M UV := match strsOf vs with
+  | some ns => pure (.strs ns)
+  | Option.none => pure (.list vs)
+
+def uCmp (op : String) (l r : UV) : M UV := match op, l, r with
+  | "In", .str c, .strs ns => pure (.bool (ns.contains c))
+  | _, _, _ => throw "TypeError"
+
 def pairsOf : List (UV × UV) → Option (List (String × Col))
   | [] => some []
   | (.str k, .col c) :: l => (pairsOf l).map fun r => (k, c) :: r
@@ -148,7 +164,7 @@ def uworld (v : View) : World M UV where
   int := .int
   str := .str
   list := .list
-  newList vs := pure (.list vs)
+  newList := uNewList
   tuple := .list
   global := uGlobal
   truthy
@@ -158,7 +174,7 @@ def uworld (v : View) : World M UV where
   getAttr := uGetAttr v
   setAttr _ _ _ := throw "AttributeError"
   call := uCall
-  cmp _ _ _ := throw "TypeError"
+  cmp := uCmp
   bin _ _ _ := throw "TypeError"
   neg _ := throw "TypeError"
   sub := uSub
@@ -191,6 +207,21 @@ theorem runM_compPairs {σ V A : Type} (F : V → SM σ (V × V)) (g : A → V) 
     | ok p =>
       simp only [ih]
       cases mapE h l <;> rfl
+
+theorem runM_compListIf {σ V A : Type} (F : V → SM σ (Option V)) (g : A → V) (p : A → Bool) (h : A → V) (st : σ) :
+    ∀ (as : List A), (∀ a ∈ as, runM (F (g a)) st = (.ok (if p a then some (h a) else none), st)) →
+      runM (compListIf F (as.map g)) st = (.ok ((as.filter p).map h), st)
+  | [], _ => by simp [compListIf]
+  | a :: l, hF => by
+    have ha := hF a List.mem_cons_self
+    have ih := runM_compListIf F g p h st l (fun b hb => hF b (List.mem_cons_of_mem _ hb))
+    simp only [List.map_cons, compListIf, runM_bind, ha, ih, runM_pure, List.filter_cons]
+    cases p a <;> simp
+
+theorem strsOf_strs (ns : List String) : strsOf (ns.map UV.str) = some ns := by
+  induction ns with
+  | nil => rfl
+  | cons a l ih => simp [strsOf, ih]
 
 /-- one entry of the comprehension, as a pair of Python values -/
 def entryOf (t : Table) (urows : List Nat) (adding : Bool) (u : UCol) : Except String (UV × UV) :=
@@ -413,7 +444,26 @@ theorem update_run (v : View) (m : Mgr) (u : Upd)
             intro n hn
             obtain ⟨c, hc, rfl⟩ := List.mem_map.mp hn
             exact hcols c hc
-          rw [hnames]
+          first
+            | rw [hnames]
+            | (-- the same list written as a comprehension: `[c for c in update.columns if c in state_table.columns]`
+               have hin : ∀ n ∈ f.names, (fun n => m.table.names.contains n) n = true := by
+                 intro n hn
+                 obtain ⟨c, hc, rfl⟩ := List.mem_map.mp hn
+                 have hs := hcols c hc
+                 cases hcol : m.table.col? c.name with
+                 | none => simp [hcol] at hs
+                 | some k =>
+                   have hk := List.find?_some hcol
+                   have hm := List.mem_of_find?_eq_some hcol
+                   simp only [beq_iff_eq] at hk
+                   simp only [List.contains_eq_mem, decide_eq_true_eq, Table.names, List.mem_map]
+                   exact ⟨k, hm, hk⟩
+               simp only [uIter, runM_pure]
+               rw [runM_compListIf _ UV.str (fun n => m.table.names.contains n) UV.str _ f.names
+                 (by intro a _; cases hc : m.table.names.contains a <;> simp [uCmp] <;> simpa using hc)]
+               rw [List.filter_eq_self.mpr hin]
+               simp only [uNewList, strsOf_strs, runM_pure])
           have hnd := hwf f hco
           rw [runM_block_cons, evalStmt]
           simp only [runM_bind]
